@@ -150,6 +150,53 @@ fn main() {
                 };
                 json!({"run": run, "lit": lit})
             }
+            "f2i" => {
+                // int(float): the float is given by its IEEE-754 bits (hex)
+                let bits = u64::from_str_radix(c["bits"].as_str().unwrap(), 16).unwrap();
+                let f = f64::from_bits(bits);
+                let run = eval_with(
+                    "def f(x):\n    return int(x)\nR = f(a)\n",
+                    |m| m.set("a", m.heap().alloc(f)),
+                    |m, res| result_of(res.map(|_| m.get("R").map(show))),
+                );
+                let fold = if f.is_finite() {
+                    run_src(&format!("R = int({:?})\n", f), None, None)
+                } else {
+                    J::Null
+                };
+                json!({"run": run, "fold": fold})
+            }
+            "i2f" => {
+                // float(int): report the bits of the result
+                let a = BigInt::from_str(a.unwrap()).unwrap();
+                let showf = |v: Value| {
+                    match starlark::values::float::StarlarkFloat::unpack_value(v) {
+                        Ok(Some(f)) if v.get_type() == "float" => {
+                            json!({"bits": format!("{:016x}", f.0.to_bits())})
+                        }
+                        _ => json!({"err": format!("not a float: {}", v.to_repr())}),
+                    }
+                };
+                let run = eval_with(
+                    "def f(x):\n    return float(x)\nR = f(a)\n",
+                    |m| m.set("a", m.heap().alloc(a.clone())),
+                    |m, res| match res.map(|_| m.get("R").map(showf)) {
+                        Ok(Some(j)) => j,
+                        Ok(None) => json!({"err": "no R"}),
+                        Err(e) => json!({"err": err_json(&e)["msg"]}),
+                    },
+                );
+                let fold = eval_with(
+                    &format!("R = float({})\n", lit(&a.to_string())),
+                    |_| {},
+                    |m, res| match res.map(|_| m.get("R").map(showf)) {
+                        Ok(Some(j)) => j,
+                        Ok(None) => json!({"err": "no R"}),
+                        Err(e) => json!({"err": err_json(&e)["msg"]}),
+                    },
+                );
+                json!({"run": run, "fold": fold})
+            }
             "host" => {
                 // conversions to the host's fixed-width types and back
                 let a = BigInt::from_str(a.unwrap()).unwrap();
